@@ -61,7 +61,7 @@ OFFENDERS = [
     (b"", b"vacation", False), (b"", b"setflag", False), (b"if ", b"envelope", False),
     (b"keep ", b":flags", False), (b'if header ', b":regex", False), (b'if header ', b":count", False),
     (b"redirect ", b":foo", False), (b"if header ", b":over", False), (b"discard ", b":copy", False),
-    (b"keep ", b'"a"', False), (b"stop ", b"12", False), (b'redirect "a" ', b'"b"', False),
+    (b"keep ", b'"a"', False), (b"stop ", b"12", False), (b"stop ", '"\u00fc\u20ac"'.encode("utf-8"), False), (b'redirect "a" ', b'"b"', False),
     (b'if exists "a" ', b'"b"', False), (b"discard ", b"3K", False),
     (b"", b"true", False), (b"", b"header", False), (b"if ", b"keep", False), (b"if not ", b"stop", False),
     (b"if anyof (true, ", b"discard", False),
